@@ -255,3 +255,54 @@ def close_rel(a, b, rel=1e-9, ab=1e-12):
     if not (math.isfinite(a) and math.isfinite(b)):
         return False
     return abs(a - b) <= rel * max(abs(a), abs(b)) + ab
+
+
+def _r9(x):
+    return round(x, 9) + 0.0
+
+
+def canon(r):
+    """representation-independent description of a library value (for differential
+    comparison of two library answers): point sets sorted, lines / planes reduced to
+    invariants of the set they denote."""
+    try:
+        if isinstance(r, Segment):
+            return ['Segment', sorted([[_r9(c) for c in _c(r.start_point)], [_r9(c) for c in _c(r.end_point)]])]
+        if isinstance(r, ConvexPolygon):
+            return ['ConvexPolygon', sorted([_r9(c) for c in _c(p)] for p in r.points)]
+        if isinstance(r, ConvexPolyhedron):
+            return ['ConvexPolyhedron', sorted([_r9(c) for c in _c(p)] for p in r.point_set)]
+        if isinstance(r, HalfLine):
+            v = _c(r.vector)
+            L = math.sqrt(X.n2(v))
+            return ['HalfLine', list(_c(r.point)), [c / L for c in v]]
+        if isinstance(r, Line):
+            d = _c(r.dv)
+            L = math.sqrt(X.n2(d))
+            u = [c / L for c in d]
+            s = _c(r.sv)
+            t = X.dot(s, u)
+            foot = [s[i] - t * u[i] for i in range(3)]
+            sg = 1
+            for c in u:
+                if abs(c) > 1e-9:
+                    sg = 1 if c > 0 else -1
+                    break
+            return ['Line', foot, [sg * c for c in u]]
+        if isinstance(r, Plane):
+            n = _c(r.n)
+            L = math.sqrt(X.n2(n))
+            u = [c / L for c in n]
+            sg = 1
+            for c in u:
+                if abs(c) > 1e-9:
+                    sg = 1 if c > 0 else -1
+                    break
+            return ['Plane', [sg * c for c in u], sg * X.dot(u, _c(r.p))]
+        if isinstance(r, (set, frozenset)):
+            return sorted((canon(x) for x in r), key=repr)
+        if isinstance(r, (tuple, list)):
+            return [canon(x) for x in r]
+    except Exception as e:
+        return 'uncanonical %s: %s' % (type(r).__name__, e)
+    return describe(r)
